@@ -94,6 +94,7 @@ def enum_ops(s, *, invalid=True):
         out = [None, False, True]
         if allow_idx:
             out += [["idx", i] for i in range(len(K))] or [["idx", 0]]
+            out += [["idx", -i] for i in sorted({1, len(K)}) if K]
         out += [["node", c.uid] for c in K]
         if invalid:
             others = [x for x in nodes if not any(x is c for c in m.kids(P_))]
@@ -158,7 +159,7 @@ def enum_ops(s, *, invalid=True):
             if not invalid and (m.inside(T_, x)):
                 continue
             same_parent = m.parent_of(x) is T_
-            for b in befores(T_, exclude=x, allow_idx=not same_parent):
+            for b in befores(T_, exclude=x, allow_idx=True):
                 yield {"op": "move", "node": x.uid, "target": tgt, "before": b}
         if typed:
             break  # typed move_to is unsupported: one node is enough
